@@ -46,7 +46,8 @@ ASSUMPTIONS = [
     "a tag that can be split in more than one way by the configured separator is ambiguous and skipped (label 'ambiguous')",
     "plain (non ValueObject) current values are strings or None (known category whose value is unset: matches no tag "
     "value); other non-string plain values are not generated",
-    "number tag values are [+-]digits or clearly malformed; bool tag values are the six documented words (lower case) or clearly malformed",
+    "number tag values are [+-]digits or clearly malformed; bool tag values are the six documented words in any letter "
+    "case (BoolValueObject.to_bool lower-cases the text) or clearly malformed",
     "providers of a CompositeActiveTagValueProvider hold disjoint categories (values may change between decisions only in "
     "the 'changing lazy values' sub-check)",
     "with ignore_unknown_categories=False an unknown category behaves as a known one whose value matches nothing "
@@ -135,9 +136,9 @@ def ref_matches(desc, tag_value):
             return False        # malformed: never matches
         return bool(op(desc["value"], int(tag_value, 10)))
     if kind == "bool":
-        if tag_value in _TRUE:
+        if tag_value.lower() in _TRUE:          # the letter case of a boolean word does not matter (to_bool lower-cases)
             return bool(op(desc["value"], True))
-        if tag_value in _FALSE:
+        if tag_value.lower() in _FALSE:
             return bool(op(desc["value"], False))
         return False
     raise ValueError(kind)
@@ -459,7 +460,7 @@ def classify(res, tags, values_list, cfg):
                     res.label("lazy-value-object")
                 if desc["kind"] == "number" and not _INT_RE.match(v):
                     res.label("malformed-number")
-                if desc["kind"] == "bool" and v not in _TRUE and v not in _FALSE:
+                if desc["kind"] == "bool" and v.lower() not in _TRUE and v.lower() not in _FALSE:
                     res.label("malformed-bool")
                 if desc.get("op") in ("contains", "prefix", "ieq"):
                     res.label("custom-compare")
@@ -793,7 +794,7 @@ ORDINARY = ["foo", "wip", "with_a=x", "USE.with_a=x", "use.with_a", "use_with_a=
             "use.without_a=x", "use.with_a:x", "a=x", "use.with=x", "notuse.with_a=x", "@use.with_a=x",
             "use.with_a.b", "not", "use"]
 
-TYPED_TAG_VALUES = {"n": ["1", "2", "x"], "flag": ["yes", "off", "maybe"], "c": ["1", "yes", "x"]}
+TYPED_TAG_VALUES = {"n": ["1", "2", "x"], "flag": ["yes", "off", "maybe", "True"], "c": ["1", "yes", "x"]}
 TYPED_ASSIGNMENTS = [{"n": {"kind": "number", "op": op, "value": cur}, "flag": {"kind": "bool", "op": None, "value": b}}
                      for op in ("eq", "ne", "ge", "le", "gt", "lt") for cur in (1, 2, 3) for b in (True, False)]
 TYPED_ORDINARY = ["foo", "use.with_n", "with_n=1", "use.with_flag:yes", "USE.with_n=1", "n=1"]
@@ -856,7 +857,7 @@ SEPARATOR_POOL = ["=", ":", "==", ":=", "~", "-", "/", "=>", "@", "#", "%", ","]
 META_SEPARATOR_POOL = [".", "|", "+", "?", "*", "$", "^", "(", "[", "\\", "..", "=|", ".="]
 NUMBER_OPS = [None, "eq", "ne", "ge", "le", "gt", "lt"]
 NUMBER_TAGS_BAD = ["abc", "", "1.5", "3x", "0x10", "1e3", "--1", "one"]
-BOOL_TAGS = list(_TRUE + _FALSE)
+BOOL_TAGS = list(_TRUE + _FALSE) + ["True", "YES", "On", "False", "NO", "oFF"]
 BOOL_TAGS_BAD = ["maybe", "", "ja", "2", "y", "t"]
 
 
